@@ -130,14 +130,14 @@ def _run(ctx):
     else:
         models = [("no corruption: 1-2 msgs, sizes 2/3/4/5/10, <=3 segments, flags free",
                    _consts((0, 1, 2, 3, 8), (0,), 1, 2, both, 3, (), True)),
-                  ("no corruption: 2 msgs, sizes 3/5/10, pushes 2/3, <=5 segments, flags all-or-nothing",
-                   _consts((1, 3, 8), (0, 1), 2, 2, both, 5, (), False)),
-                  ("one corruption: 1-2 msgs, sizes 2/4/5/10, <=3 segments, flags all-or-nothing",
-                   _consts((0, 2, 3, 8), (0,), 1, 2, both, 3, regs, False)),
+                  ("no corruption: 2 msgs, sizes 5/10, pushes 2, <=5 segments, flags all-or-nothing",
+                   _consts((3, 8), (0,), 2, 2, both, 5, (), False)),
+                  ("one corruption: 2 msgs, sizes 2/5, <=3 segments, flags all-or-nothing",
+                   _consts((0, 3), (0,), 2, 2, both, 3, regs, False)),
                   ("one corruption: 1 msg, sizes 2/5/10, flags free",
                    _consts((0, 3, 8), (0,), 1, 1, both, 3, regs, True)),
-                  ("no corruption: 3 msgs, sizes 2/4, two of them sharing a segment, <=3 segments",
-                   _consts((0, 2), (0,), 3, 3, both, 3, (), False))]
+                  ("no corruption: 3 msgs, sizes 2/4, two of them sharing a segment, 2 segments",
+                   _consts((0, 2), (0,), 3, 3, both, 2, (), False))]
     graphs = []
     for n, (label, consts) in enumerate(models):
         res, nodes, edges, init = tlc.state_graph("Segments", _cfg(ctx, "seg_%d.cfg" % n, consts, INVARIANTS), ctx.scratch,
@@ -305,7 +305,7 @@ def _run(ctx):
     ctx.note("reads_replayed", feeds)
 
     # ------------------------------------------------------------------ code -> spec: recorded runs validated by TLC
-    n_tr = 150 if ctx.quick else 1500
+    n_tr = 150 if ctx.quick else 1000
     traces, lays = [], []
     for i in range(n_tr):
         lay = rs.random_layout(ctx.rng, max_frames=3, corrupt_p=0.0 if ctx.quick else 0.2)
